@@ -63,6 +63,11 @@ func c10Wire(kind int, hbh uint32) []byte {
 		}
 		return peer.StdCER(hbh, hbh, 999)
 	case pDWR:
+		if (int(hbh)+c10Dress)%3 != 0 {
+			// with the optional Origin-State-Id, growing from one DWR to the next (identifiers grow
+			// along the sequence): a peer that restarted, nothing more
+			return peer.Msg(0x80, peer.CodeDW, 0, hbh, hbh, append(peer.Identity("peer.example", "example"), peer.U32(peer.OriginState, hbh))...)
+		}
 		return peer.DWR(hbh, hbh)
 	case pCERokApp:
 		b := peer.StdCER(hbh, hbh, 4)
@@ -385,6 +390,54 @@ func head(s []string) []string {
 		return s[:3]
 	}
 	return s
+}
+
+// runC10BaseWithinApp: the application registers an index for {0, STR, request} and a catch-all.
+// After the handshake a Session-Termination request with application id 0 goes to the index
+// handler, the same command sent under application 4 (no index, no name registered for it) to
+// the catch-all - an index names an application id, it is not a fallback for the others.
+func runC10BaseWithinApp(c *ev.Case, ctx *lib.Ctx, allByIdx bool) {
+	sig := func(op string) ev.Sig {
+		return ev.Sig{"op": op, "role": "server", "suite": "base-command-within-application"}
+	}
+	machine := sm.New(&sm.Settings{OriginHost: "srv.local", OriginRealm: "realm.local", VendorID: 13, ProductName: "verif",
+		HostIPAddresses: []datatype.Address{datatype.Address([]byte{192, 0, 2, 1})}})
+	l := &hlog{}
+	h := func(key string) diam.HandlerFunc {
+		return func(_ diam.Conn, m *diam.Message) { l.add(key, m) }
+	}
+	machine.HandleIdx(diam.CommandIndex{AppID: 0, Code: 275, Request: true}, h("idx0"))
+	machine.HandleIdx(diam.CommandIndex{AppID: 0, Code: 258, Request: true}, h("idx0"))
+	if allByIdx {
+		machine.HandleIdx(diam.ALL_CMD_INDEX, h("all"))
+	} else {
+		machine.HandleFunc("ALL", h("all"))
+	}
+	mc := memnet.NewConn()
+	ln := memnet.NewListener()
+	srv := &diam.Server{Handler: machine, Dict: ctx.Parser}
+	go srv.Serve(ln)
+	ln.Offer(mc)
+	defer func() {
+		mc.FeedEOF()
+		ln.Close()
+		synctest.Wait()
+	}()
+	sess := peer.Str(peer.SessionID, refcodec.UTF8String, "s;1")
+	mc.Feed(peer.StdCER(1, 1, 4))
+	mc.Feed(peer.Msg(0xC0, 275, 0, 11, 11, sess))
+	mc.Feed(peer.Msg(0xC0, 275, 4, 12, 12, sess))
+	mc.Feed(peer.Msg(0xC0, 258, 4, 13, 13, sess))
+	mc.Feed(peer.Msg(0xC0, 258, 0, 14, 14, sess))
+	mc.Feed(peer.Msg(0xC0, 274, 4, 15, 15, sess))
+	synctest.Wait()
+	got := fmt.Sprint(l.snapshot())
+	if want := "[idx0:11 all:12 all:13 idx0:14 all:15]"; got != want {
+		c.Fail(sig("handler-log-differs"), nil, nil, "handlers registered for index {0,275,request}, {0,258,request} and as catch-all; STR(app 0), STR(app 4), RAR(app 4), RAR(app 0), ASR(app 4) after the handshake: handler invocations %s, expected %s", got, want)
+		return
+	}
+	c.Event("app_invocations", 5)
+	c.Event("server_sequences", 1)
 }
 
 func runC10Server(c *ev.Case, ctx *lib.Ctx, seq []int, oneSegment bool, allByIdx bool) {
@@ -728,6 +781,10 @@ func TestC10(t *testing.T) {
 		run(c, func() { runC10Several(c, ctx, bad, byIdx, goodFirst) })
 	})
 	rec.Exhaustive("several-peers")
+	rec.Suite("base-command-within-application", 2, func(c *ev.Case) {
+		c.Class("base-command-within-application/all-by-index=%v", c.I == 0)
+		run(c, func() { runC10BaseWithinApp(c, ctx, c.I == 0) })
+	})
 	rec.Suite("peers-at-once", rec.N(60, 20000), func(c *ev.Case) {
 		K := 2 + c.I%5
 		c.Class("peers-at-once/K=%d", K)
